@@ -42,7 +42,17 @@ def program(refresh=True):
         else:
             text = open(path).read()
         _prog = Program(text, REPO)
-        _prog.mir_sha = hashlib.sha256(text.encode()).hexdigest()
+        _prog.mir_sha_full = hashlib.sha256(text.encode()).hexdigest()
+        # the v1 entry points never reach v2 code: their caches are keyed by the MIR of everything except `v2::*` items,
+        # so that an edit confined to src/v2 does not invalidate them (any other edit does)
+        keep = []
+        skip = False
+        for line in text.split('\n'):
+            if re.match(r'^(fn|const|static|promoted\[\d+\] in) ', line) or (line and not line[0].isspace() and line[0] not in '}'):
+                skip = bool(re.match(r'^(fn|const|static) v2::', line) or re.match(r'^promoted\[\d+\] in v2::', line) or re.match(r'^// MIR FOR .*v2::', line))
+            if not skip:
+                keep.append(line)
+        _prog.mir_sha = hashlib.sha256('\n'.join(keep).encode()).hexdigest()
     return _prog
 
 
